@@ -257,7 +257,37 @@ LifecycleSet ==
                 Life(Scn(12000 + q, s[1], s[2], 1, 5, 9, (q % 2) = 0, 4, TRUE), 500 + q, 1, n, FALSE, 1), [mut |-> "none"])
        : q \in 1..cnt }
 
-Scripts == CASE Family = "honest" -> HonestSet \cup NoneSet
+\* ------------------------------------------- default path: no suites given => discovery, suite 17, else suite 3
+\* served by rules: cipher-suite chunks by list index, then the honest legs of whichever suite the library proposes
+StdRec(id, a, i, c) == <<192, id, a, 64 + i, 128 + c>>
+LegRules(S17, S3) ==
+  LET pick(leg17, leg3) == \* the proposal is visible in the Open Session Request only; later legs reuse what was captured then
+        <<leg17, leg3>>
+  IN << [rule |-> "osr17", when |-> << Eq(Slice(Req, 5, 6), B(<<16>>)), Eq(Slice(Req, 28, 29), B(<<3>>)) >>, effects |-> << [k |-> "set", name |-> "suite", v |-> 17] >>]
+          @@ [captures |-> HonestOsr(S17).captures, datagrams |-> HonestOsr(S17).datagrams],
+        [rule |-> "osr3", when |-> << Eq(Slice(Req, 5, 6), B(<<16>>)), Eq(Slice(Req, 28, 29), B(<<1>>)) >>, effects |-> << [k |-> "set", name |-> "suite", v |-> 3] >>]
+          @@ [captures |-> HonestOsr(S3).captures, datagrams |-> HonestOsr(S3).datagrams],
+        [rule |-> "rakp2-17", when |-> << Eq(Slice(Req, 5, 6), B(<<18>>)) >>, ifstate |-> [name |-> "suite", eq |-> 17]]
+          @@ [captures |-> HonestRakp2(S17).captures, datagrams |-> HonestRakp2(S17).datagrams],
+        [rule |-> "rakp2-3", when |-> << Eq(Slice(Req, 5, 6), B(<<18>>)) >>, ifstate |-> [name |-> "suite", eq |-> 3]]
+          @@ [captures |-> HonestRakp2(S3).captures, datagrams |-> HonestRakp2(S3).datagrams],
+        [rule |-> "rakp4-17", when |-> << Eq(Slice(Req, 5, 6), B(<<20>>)) >>, ifstate |-> [name |-> "suite", eq |-> 17]]
+          @@ [captures |-> HonestRakp4(S17).captures, checks |-> HonestRakp4(S17).checks, datagrams |-> HonestRakp4(S17).datagrams],
+        [rule |-> "rakp4-3", when |-> << Eq(Slice(Req, 5, 6), B(<<20>>)) >>, ifstate |-> [name |-> "suite", eq |-> 3]]
+          @@ [captures |-> HonestRakp4(S3).captures, checks |-> HonestRakp4(S3).checks, datagrams |-> HonestRakp4(S3).datagrams] >>
+DefaultScript(id, k, adv17, api) ==
+  LET S17 == Scn(13000 + k, 3, 4, 1, 4 + (k % 5), 7 + (k % 9), FALSE, 4, api # "NewSession")
+      S3 == [S17 EXCEPT !.authAlg = "sha1", !.integAlg = "sha1", !.authNum = 1, !.integNum = 1, !.icvLen = 12, !.integLen = 12]
+      SS0 == IF adv17 THEN S17 ELSE S3
+      SS == IF api = "NewSession" THEN [SS0 EXCEPT !.lookup = FALSE] ELSE SS0          \* NewSession: name-only lookup, no KG
+      data == (IF adv17 THEN StdRec(17, 3, 4, 1) ELSE <<>>) \o StdRec(3, 1, 1, 1) \o StdRec(8, 2, 2, 1) \o StdRec(1, 1, 0, 0)
+      call == IF api = "NewSession"
+              THEN [k |-> "call", api |-> "NewSession", label |-> "open", args |-> [Username |-> SS.uname, Password |-> SS.pw, MaxPrivilegeLevel |-> SS.priv], exp |-> ExpSession(SS)]
+              ELSE [NewSessionCall(SS, ExpSession(SS)) EXCEPT !.args = [@ EXCEPT !.CipherSuites = <<>>]]
+  IN ScriptOf(id, "default", SS, << [k |-> "rules", rules |-> CipherRules(data) \o LegRules(S17, S3)], call, ExpectSession(SS) >> \o Commands(SS, <<2, 9>>), [mut |-> "none"])
+DefaultSet == { DefaultScript("def-" \o ToString(k) \o (IF a THEN "-17-" ELSE "-3-") \o api, k, a, api) : k \in 1..(IF Full THEN 12 ELSE 3), a \in BOOLEAN, api \in {"NewSession", "NewV2Session"} }
+
+Scripts == CASE Family = "honest" -> HonestSet \cup NoneSet \cup DefaultSet
              [] Family = "lifecycle" -> LifecycleSet
              [] Family = "long" -> LongSet
              [] Family = "mutate" -> MutateSet
